@@ -21,7 +21,10 @@ pub(crate) fn parse_txn_postings(is: &mut Stream<'_>) -> ModalResult<Posts> {
     .parse_next(is)?;
 
     if let Some(p) = postings.1 {
-        let amount = txn_sum(&postings.0).neg();
+        let amount = match txn_sum(&postings.0) {
+            Ok(sum) => sum.neg(),
+            Err(err) => return Err(from_error(is, err.as_ref())),
+        };
         let comm = postings.0[0].txn_commodity.clone();
 
         let acctn = match is.state.get_or_create_txn_account(p.0, comm.clone()) {
